@@ -80,6 +80,14 @@ TraceNext ==
                  /\ viol' = viol \cup (IF e.info = e.expect THEN {}
                                        ELSE {Sig("C20", IF e.info.height # e.expect.height THEN "info-height" ELSE "info-appHash", "-", e)})
                  /\ UNCHANGED <<recs, nscn, ncommit>>
+            [] e.ev = "imported_block" ->
+                 \* the chain started from the exported genesis executes the following blocks like the original
+                 /\ viol' = viol \cup {Sig("C19", "behaviour-after-import:" \o e.txs[j].k,
+                                           IF e.txs[j].code # e.txs[j].gen_code \/ e.txs[j].codespace # e.txs[j].gen_codespace THEN "code" ELSE "data", e) :
+                                       j \in {x \in 1..Len(e.txs) : \/ e.txs[x].code # e.txs[x].gen_code
+                                                                    \/ e.txs[x].codespace # e.txs[x].gen_codespace
+                                                                    \/ e.txs[x].data # e.txs[x].gen_data}}
+                 /\ UNCHANGED <<recs, restarted, restartedAt, nscn, ncommit>>
             [] e.ev = "export_import" ->
                  /\ viol' = viol \cup
                       (IF ~e.ok THEN {Sig("C19", "export-import-failed", "-", e)}
